@@ -210,7 +210,9 @@ def gen_scenario(seed: int, algos: Sequence[str], envs: Optional[Sequence[str]] 
     if algo == "VOGP_AD":
         # open finding: in_dim < out_dim crashes in calculate_design_vh; only provoked on request
         in_dim = int(rng.choice([1, 2, 2])) if provoke else int(rng.choice([2, 2, 2, 3]))
-        sc["vad"] = {"in_dim": in_dim, "depth_max": int(rng.choice([2, 3])) if in_dim < 3 else 2, "key": st["adv_key"]}
+        # depth 4 in 2-D matters: only then can the oldest surviving node be at maximum depth while a
+        # younger one is coarser (seeded change C18-b needs that history)
+        sc["vad"] = {"in_dim": in_dim, "depth_max": int(rng.choice([2, 3, 4, 4])) if in_dim < 3 else int(rng.choice([2, 2, 3])), "key": st["adv_key"]}
         if sc["vad"]["in_dim"] == 1:
             sc["vad"]["depth_max"] = int(rng.choice([2, 3, 4]))
         sc["contraction"] = float(rng.choice([4, 32, 1024]))
@@ -276,7 +278,7 @@ def gen_scenario(seed: int, algos: Sequence[str], envs: Optional[Sequence[str]] 
     sc["extra_steps"] = int(rng.choice([0, 1, 2, 5]))
     sc["max_steps"] = 150 if small else 400
     if algo == "VOGP_AD":
-        sc["max_steps"] = 60 if small else 150
+        sc["max_steps"] = 120 if small else 250
     return sc
 
 
